@@ -108,6 +108,8 @@ class Sim(object):
         r.clock = [v for (_pid, v) in P.CLOCK.readings[c0:]]
         r.replies = list(getattr(p.stdio.stdin, 'replies', []))
         self.log.append(r.as_log())
+        if K.bypass:
+            raise HarnessError('call(s) bypassed the seam: %r' % (K.bypass[:5],))
         return r
 
     def snap(self):
